@@ -18,7 +18,7 @@ except ImportError:  # falsifier module not present
 META = {
     "level": "proof",
     "rule": 'B1 case = float64 transfer map vs the double-precision model (accuracy tie)' + ((" | falsifier: " + F.META.get("rule", "")) if F and hasattr(F, "META") else ""),
-    "modelled": 'tensor-creation sites (syntactic classification, DtypeSites.lean)',
+    "modelled": 'tensor-creation sites (syntactic classification, DtypeSites.lean); PyTorch type promotion over dimensioned / zero-dimensional / Python operands (Promote.lean, tied to torch by op prom)',
     "gap": 'partial: round-off itself is not a theorem; the site table is a syntactic abstraction',
     "assumptions": ((F.META.get("assumptions", []) if F and hasattr(F, "META") else []) + []),
 }
